@@ -74,6 +74,11 @@ func chainSyncSetup(s *rt.Sim, tier string) func() {
 					// the property speaks of Shelley-or-later blocks over node-to-node
 					op.blk = postByron[pick("op", len(postByron))]
 				}
+				if rt.Choose("op.x", 4) == 3 {
+					// a real block whose issuer signals another protocol major version
+					pv := protoVariantBlocks()
+					op.blk = pv[rt.Choose("op.x", len(pv))]
+				}
 			}
 			op.await = chance("op", 1, 7)
 			hist = append(hist, op)
